@@ -1175,6 +1175,8 @@ func (n *network) accept(a *acceptor) {
 			n.node.Log().Trace("accepted new TCP-connection from %s", c.RemoteAddr().String())
 		}
 
+		// the cookie of the acceptor or of the node may have been changed since the last connection
+		hopts.Cookie = a.cookie
 		if hopts.Cookie == "" {
 			hopts.Cookie = n.cookie
 		}
